@@ -153,3 +153,46 @@ class RecFile:
 
     def __getattr__(self, item):
         return getattr(self.f, item)
+
+
+def make_fs(rec):
+    """An fsspec local filesystem whose calls are recorded by `rec` (and can be faulted).
+
+    Handing `fs.open` (a bound method of a real AbstractFileSystem) to fastparquet keeps the library on the same
+    code paths as the default opener: ParquetFile finds the filesystem through open_with.__self__ and sets .fs,
+    which _sort_part_names and remove_row_groups rely on."""
+    from fsspec.implementations.local import LocalFileSystem
+
+    class RecFS(LocalFileSystem):
+        cachable = False
+
+        def __init__(self):
+            super().__init__()
+            self.rec = rec
+
+        def open(self, path, mode="rb", **kw):
+            return RecFile(self.rec, self._strip_protocol(path), mode)
+
+        def mv(self, path1, path2, **kw):
+            p1, p2 = self._strip_protocol(path1), self._strip_protocol(path2)
+            existed = os.path.exists(p2)
+            self.rec.countable("rename", src=self.rec.rel(p1), dst=self.rec.rel(p2))
+            os.rename(p1, p2)
+            self.rec.emit("rename", src=self.rec.rel(p1), dst=self.rec.rel(p2), dst_existed=existed, k=self.rec.calls)
+
+        rename = mv
+
+        def rm(self, path, recursive=False, maxdepth=None):
+            paths = [path] if isinstance(path, (str, os.PathLike)) else list(path)
+            self.rec.remove_with([self._strip_protocol(p) for p in paths])
+
+        def rm_file(self, path):
+            self.rec.remove_with([self._strip_protocol(path)])
+
+        def makedirs(self, path, exist_ok=False):
+            self.rec.mkdirs(self._strip_protocol(path))
+
+        def mkdirs(self, path, exist_ok=False):
+            self.rec.mkdirs(self._strip_protocol(path))
+
+    return RecFS()
